@@ -53,10 +53,12 @@ def _sig_for(case, group, feats, got, exp):
         for s in G.spellings(prods, cstage, group["refs"][i]):
             if s in got and s not in exp:
                 return "both-spellings-used-one-left-unresolved"
+    for loc, _ in feats["rescans"]:
+        text = case["contents"][loc].rstrip("\n")
+        if text in exp and text not in got:
+            return "substituted-file-contents-rescanned"
     if feats["overlaps"]:
         return "reference-text-inside-longer-reference-replaced"
-    if feats["rescans"]:
-        return "substituted-file-contents-rescanned"
     return "resolved-arguments-differ"
 
 
